@@ -29,14 +29,12 @@ INVARIANT TypeOK
 INVARIANT InvNoLoss
 INVARIANT InvEsNoLoss
 INVARIANT InvDropOnlyAfterError
-INVARIANT InvAtMostOnce
 INVARIANT InvTransferOnce
 INVARIANT InvIntact
 INVARIANT InvReturnedMeansSent
 INVARIANT InvCloseClears
 INVARIANT InvPutAdds
 INVARIANT InvMetaScopes
-INVARIANT InvMetaData
 INVARIANT InvTimes
 INVARIANT InvFields
 INVARIANT InvOpenOk
